@@ -37,6 +37,31 @@ theorem C05_forced_leftover (k thr : Nat) (labels : List Nat) (level ty : Nat)
       = a.plans ++ [⟨level, ty, sortNat segs, (a.alloc labels (level + 1)).1⟩] := by
   simp [planUid, h1, h2, PlanAcc.alloc]
 
+/-- A whole compaction round — policy plan from the index, any number of batches over any levels
+and event types, hand-over after each batch, reclaim of every drained directory at the end —
+loses no row that was readable from a live directory whose index entries list the row's type.
+Stated for EVERY state. PARTIAL in the side condition `GoodBatches`: the output ids the planner
+hands out are pairwise distinct and name neither an index entry nor a live directory (a decidable
+check on the plan; it held for every plan produced in the correspondence runs, and the
+allocator's `level·span + max offset + 1 + i` scheme is what is meant to guarantee it). -/
+theorem C05_round_no_loss_partial (s : Shard) (e : Ev)
+    (hgood : GoodBatches (loadIndex s) (groupPlans (planAll (loadIndex s).kmerge (loadIndex s).index)))
+    (id : Nat) (hlive : id ∈ (loadIndex s).live) (hrow : e ∈ segRows (loadIndex s) id)
+    (hlisted : Listed (loadIndex s) id e.ty) :
+    e ∈ liveRows (compactRound s) :=
+  round_no_loss s e hgood ⟨id, hlive, by simp, hrow, hlisted⟩
+
+/-- Non-vacuity: the two-type witness state satisfies the side condition, and row 3 of directory 1
+is anchored. -/
+example :
+    let s := runOps (Shard.init 2 3)
+      [.store ⟨1,0,0⟩, .store ⟨2,0,1⟩, .drain, .store ⟨3,0,0⟩, .store ⟨4,0,0⟩, .drain,
+       .store ⟨5,0,0⟩, .store ⟨6,0,0⟩, .drain]
+    GoodBatches (loadIndex s) (groupPlans (planAll (loadIndex s).kmerge (loadIndex s).index)) ∧
+      Listed (loadIndex s) 1 0 := by
+  unfold GoodBatches Listed
+  decide
+
 /-- "No event becomes readable from both an input and an output segment" is FALSE of the code
 as modelled. Witness: merge fan-in 3 (threshold 2); directory 0 holds types 0 and 1,
 directories 1 and 2 only type 0. Type 0 is compacted out of {0,1,2}; type 1 has a single
